@@ -63,6 +63,9 @@ func c13Check(c timed.Cfg) func(o *obs.Obs) string {
 		if saturated {
 			for i, e := range ev {
 				lo := int64(i/c.Ops) * I
+				if e.Time >= cancelT {
+					break // from the instant of the cancel (or deadline) on the stage is no longer throttled
+				}
 				if e.Time < lo || e.Time > lo+I {
 					return fmt.Sprintf("%s/latency|saturated: element %d delivered at t=%d, want within [%d,%d] (delivery times %v)", tag, i, e.Time, lo, lo+I, times(ev))
 				}
@@ -157,6 +160,16 @@ func c13Scenarios(tier string) []e1lib.Scenario {
 							gaps[j], gaps[j2] = 10*I, 10*I
 							add(timed.Cfg{Kind: "throttle", Ops: ops, Interval: I, Cap: cp, K: k, ProdGap: pg, ConsGaps: gaps, CancelAt: -1})
 						}
+					}
+				}
+			}
+			// a context with a deadline instead of a cancel: the stage is throttled right up to the deadline
+			if ops <= 2 && cp <= 1 {
+				for _, T := range []int{I + 1, 2*I + 2, 3*I - 1, 3*I + 2, 5 * I} {
+					for _, g := range []int{0, I} {
+						gaps := make([]int, k+4)
+						gaps[0] = g
+						add(timed.Cfg{Kind: "throttle", Ops: ops, Interval: I, Cap: cp, K: k + 4, ConsGaps: gaps, CancelAt: -1, Timeout: T})
 					}
 				}
 			}
